@@ -685,6 +685,7 @@ def check_C05(work, tier, seed):
     r, ok = run_mc(work, out, "MC_Ctr", "MC_Ctr", must_cover=("DoInit", "DoSetCounter", "DoSetKey", "DoEncrypt"))
     if not ok:
         mc_violation("C05", out, "MC_Ctr", r)
+    run_mc(work, out, "MC_Ctr", "MCneg_Ctr_narrow", expect_fail=True)
     if tier == "thorough":
         r, ok = run_mc(work, out, "MC_Ctr", "MC_Ctr8")
         if not ok:
@@ -1126,6 +1127,7 @@ def check_C07(work, tier, seed):
     if not ok:
         mc_violation("C07", out, "MC_Par", r)
     run_mc(work, out, "MC_Par", "MCneg_Par_noremainder", expect_fail=True)
+    run_mc(work, out, "MC_Par", "MCneg_Par_narrow", expect_fail=True)
     b = build(work)
     lines = backend_sweep(work, b, "C07", seed, lambda cf: gen_c07(seed, tier, cf), out)
     # the byte-wise load/store variants of the vector code (strict-alignment targets) and the
